@@ -4,6 +4,14 @@ go 1.23.0
 
 require github.com/cedar-policy/cedar-go v0.0.0
 
-require golang.org/x/exp v0.0.0-20220921023135-46d9e7742f1e // indirect
+require (
+	golang.org/x/mod v0.22.0 // indirect
+	golang.org/x/sync v0.10.0 // indirect
+)
+
+require (
+	golang.org/x/exp v0.0.0-20220921023135-46d9e7742f1e // indirect
+	golang.org/x/tools v0.29.0
+)
 
 replace github.com/cedar-policy/cedar-go => /repo
